@@ -1,6 +1,7 @@
 package worlds
 
 import (
+	"context"
 	"bytes"
 	"errors"
 	"fmt"
@@ -41,7 +42,8 @@ type c6Chain struct {
 	failOn   int // sink index that returns an error for this event, -1 none
 	shortOn  int // sink index that accepts fewer bytes (nil error) for this event, -1 none
 	panicOn  int // sink index whose Write panics for this event (the logging goroutine recovers), -1 none
-	derive   int // 0 none; the task derives a child logger first: 1 With().Str, 2 Hook, 3 Level(Trace), 4 Output(same destination)
+	derive   int // 0 none; the task derives a child logger first: 1 With().Str, 2 Hook, 3 Level(Trace), 4 Output(same destination), 5 child attached to a context derived from the shared one
+	viaCtx   bool // the logger is taken out of a context.Context shared by the tasks (zerolog.Ctx)
 	sampler  int // index of the shared BasicSampler its logger goes through, -1 none
 	gatePass bool
 }
@@ -65,6 +67,7 @@ type c6Run struct {
 	samplers  []*c6CountSampler
 	samplerN  []uint32
 	samplerOf []int // per logger index: sampler index or -1
+	ctxs      []context.Context // per logger index: a context carrying it, shared by the tasks
 }
 
 type c6Sink struct {
@@ -231,6 +234,14 @@ func (h c6Hook) Run(e *zerolog.Event, l zerolog.Level, msg string) {
 	e.Str("hook", h.name)
 }
 
+type c6RejectAll struct{}
+
+func (c6RejectAll) Sample(zerolog.Level) bool { return false }
+
+type c6CountWriter struct{ n int }
+
+func (w *c6CountWriter) Write(p []byte) (int, error) { w.n++; return len(p), nil }
+
 func (r *c6Run) buildDest() io.Writer {
 	a, b := r.sinks[0], c6LevelSink{r.sinks[1]}
 	switch r.dest {
@@ -290,6 +301,21 @@ func (r *c6Run) start(c *c6Chain) *zerolog.Event {
 		return zlog.WithLevel(c.level)
 	}
 	lg := r.loggers[c.logger]
+	if c.viaCtx {
+		zsim.Probe("logger_from_context")
+		ctx := r.ctxs[c.logger]
+		if c.derive == 5 {
+			// a worker gives itself a child logger and carries it in its own context,
+			// derived from the shared one; the shared context keeps handing out the parent
+			child := zerolog.Ctx(ctx).With().Str("derived", c.id).Logger()
+			ctx = child.WithContext(ctx)
+		}
+		lp := zerolog.Ctx(ctx)
+		if c.level == zerolog.NoLevel {
+			return lp.Log()
+		}
+		return lp.WithLevel(c.level)
+	}
 	switch c.derive {
 	case 1:
 		lg = lg.With().Str("derived", c.id).Logger()
@@ -521,6 +547,10 @@ func (c06World) Run(prop string, ch *zsim.Choices, trace bool) *RunResult {
 				}
 			}
 			zlog.Logger = root.With().Str("global", "g").Logger()
+			r.ctxs = nil
+			for _, lg := range r.loggers {
+				r.ctxs = append(r.ctxs, lg.WithContext(context.Background()))
+			}
 		}
 		build()
 		r.nTasks = 2 + ch.Weighted(4, 3, 2, 1, 1)
@@ -541,6 +571,10 @@ func (c06World) Run(prop string, ch *zsim.Choices, trace bool) *RunResult {
 					c.sampler = r.samplerOf[c.logger]
 					if ch.Chance(1, 4) {
 						c.derive = 1 + ch.Intn(4)
+					}
+					if ch.Chance(1, 4) {
+						c.viaCtx = true
+						c.derive = 5 * ch.Intn(2)
 					}
 				}
 				if !withErrors && ch.Chance(1, 8) {
@@ -634,19 +668,45 @@ func (c06World) Run(prop string, ch *zsim.Choices, trace bool) *RunResult {
 			}))
 		}
 		if r.flips {
+			// one task owns the global level, another the global sampling switch; each sees
+			// its own setting stick whatever the other does meanwhile (they are independent
+			// settings: a chain "set it, then log" behaves as when run alone)
 			tasks = append(tasks, zsim.Spawn("flipper", func() {
 				for i := 0; i < 6; i++ {
+					lv := zerolog.TraceLevel
 					if i%2 == 0 {
-						zerolog.SetGlobalLevel(zerolog.ErrorLevel)
-					} else {
-						zerolog.SetGlobalLevel(zerolog.TraceLevel)
+						lv = zerolog.ErrorLevel
 					}
+					zerolog.SetGlobalLevel(lv)
 					zsim.Fault("global_level_flip")
 					for j := ch.Intn(30); j > 0; j-- {
 						zsim.Yield("flipper")
 					}
+					if g := zerolog.GlobalLevel(); g != lv {
+						zsim.Fail("C06.global_state", "the only task that sets the global level set it to %v and reads back %v (another task was toggling DisableSampling meanwhile)", lv, g)
+					}
 				}
 				zerolog.SetGlobalLevel(zerolog.TraceLevel)
+			}))
+			tasks = append(tasks, zsim.Spawn("sampling-flipper", func() {
+				var probe c6CountWriter
+				lg := zerolog.New(&probe).Sample(c6RejectAll{})
+				for i := 0; i < 5; i++ {
+					off := i%2 == 0
+					zerolog.DisableSampling(off)
+					zsim.Fault("sampling_switch_flip")
+					for j := ch.Intn(30); j > 0; j-- {
+						zsim.Yield("sampling-flipper")
+					}
+					// an Error event passes either global level; a sampler that rejects
+					// everything lets it through exactly when sampling is switched off
+					before := probe.n
+					lg.Error().Msg("probe")
+					if got := probe.n - before; got != map[bool]int{true: 1, false: 0}[off] {
+						zsim.Fail("C06.global_state", "the only task that toggles DisableSampling set it to %v; its event through a logger whose sampler rejects everything was then written %d time(s) (another task was setting the global level meanwhile)", off, got)
+					}
+				}
+				zerolog.DisableSampling(false)
 			}))
 		}
 		zsim.Join(tasks...)
